@@ -239,6 +239,10 @@ func (d *decoder) decode() (Item, error) {
 		if err != nil {
 			return nil, fmt.Errorf("%w (malformed exp value for int)", ErrInvalidValue)
 		}
+		// Nothing above 2^256 fits a stack item; refuse it before it is expanded digit by digit.
+		if f.MantExp(nil) > MaxBigIntegerSizeBits+1 {
+			return nil, fmt.Errorf("%w (integer)", ErrInvalidValue)
+		}
 
 		// Int.SetString() is more efficient, but there are special
 		// cases requiring additional care for C# compatibility, that's
@@ -255,6 +259,9 @@ func (d *decoder) decode() (Item, error) {
 		num = new(big.Int)
 		_, acc := f.Int(num)
 		if acc != big.Exact {
+			return nil, fmt.Errorf("%w (integer)", ErrInvalidValue)
+		}
+		if err := CheckIntegerSize(num); err != nil {
 			return nil, fmt.Errorf("%w (integer)", ErrInvalidValue)
 		}
 		return NewBigInteger(num), nil
@@ -293,6 +300,9 @@ func (d *decoder) decodeMap() (*Map, error) {
 		}
 
 		var keyItem = NewByteArray([]byte(k))
+		if err := IsValidMapKey(keyItem); err != nil {
+			return nil, err
+		}
 		if m.Has(keyItem) {
 			return nil, errors.New("duplicate object property")
 		}
@@ -475,6 +485,9 @@ func FromJSONWithTypes(data []byte) (Item, error) {
 		val, ok := new(big.Int).SetString(s, 10)
 		if !ok {
 			return nil, mkErrValue(errors.New("not an integer"))
+		}
+		if err := CheckIntegerSize(val); err != nil {
+			return nil, mkErrValue(err)
 		}
 		return NewBigInteger(val), nil
 	case ByteArrayT, BufferT:
